@@ -762,6 +762,42 @@ def coconstraint_corruptions(gen, cid, o):
     return out
 
 
+def ordered_timestamp_pairs(gen, cid):
+    """(later, earlier) property names of the class's ordered-timestamp rules (own constraint text of the frozen spec,
+    plus created <= modified on the versioned classes)."""
+    c = gen.classes[cid]
+    src = c.get("constraints_src") or ""
+    slots = {s["name"] for s in c["slots"]}
+    env = dict(_re.findall(r"(\w+) = self\.get\('(\w+)'\)", src))
+    out = []
+    for m in _re.finditer(r"\((\w+) (<=|<) (\w+)\)", src):
+        later, earlier = env.get(m.group(1)), env.get(m.group(3))
+        if later in slots and earlier in slots:
+            out.append((later, earlier))
+    if versioned(c):
+        out.append(("modified", "created"))
+    return out
+
+
+def offset_datetime_cases(gen, cid, o):
+    """Python-only: the two properties of an ordered-timestamp rule given as AWARE datetime objects with different UTC
+    offsets, such that the wall-clock readings are in order while the instants are not (and the reverse, which is
+    legal): list of (label, object)."""
+    out = []
+    for later, earlier in ordered_timestamp_pairs(gen, cid):
+        def dt(h, off):
+            return {"__py__": "datetime-offset", "items": [2016, 6, 1, h, 0, 0, 0], "offset": off}
+        for label, e, l in (("offset-instant-reversed", dt(12, 0), dt(13, 300)),        # 12:00Z, 13:00+05:00 = 08:00Z
+                            ("offset-instant-reversed", dt(12, -300), dt(13, 0)),       # 17:00Z, 13:00Z
+                            ("offset-wallclock-reversed", dt(12, 300), dt(11, 0))):     # 07:00Z, 11:00Z (legal)
+            x = dict(o)
+            x[earlier], x[later] = e, l
+            if gen.classes[cid]["name"] == "NetworkTraffic":
+                x["is_active"] = False
+            out.append((label + ":" + later, x))
+    return out
+
+
 # ------------------------------------------------------- Python-only argument values
 
 def py_value_cases(gen, cid, o):
